@@ -21,6 +21,7 @@ from .common import (
     MAGIC_LAST,
     MAGIC_NOWIKI_CHAR,
     MAGIC_SQUOTE_CHAR,
+    NAMED_ARG_RE,
     URL_STARTS,
     is_positional_name,
     nowiki_quote,
@@ -639,13 +640,14 @@ class TemplateNode(WikiNode):
                     if not isinstance(parameter, str):
                         unnamed_parameter_index += 1
                     else:
-                        if "=" in parameter:
+                        has_name = NAMED_ARG_RE.match(parameter) is not None
+                        if has_name:
                             is_named = True
                         else:
                             unnamed_parameter_index += 1
                         if len(parameter) == 0:
                             continue
-                        if "=" in parameter:
+                        if has_name:
                             equal_sign_index = parameter.index("=")
                             parameter_name = parameter[
                                 :equal_sign_index
